@@ -179,3 +179,119 @@ pub fn teardown() {
         ..BASE
     });
 }
+
+/// `pool-wrap`: more than 2^16 releases on one pool, so the 16 bit tail of the
+/// buffer ring wraps (thorough tier only; one long history per run).
+pub fn pool_wrap() {
+    use std::task::{Context, Poll};
+    use crate::exec::{DynTask, Produced};
+    use crate::kernel::{self, KCfg};
+    use crate::ops::{self, Kind, World};
+    use crate::{alloc, stats};
+    kernel::with(|k| {
+        k.cfg = KCfg {
+            p_yield_act: tape::pick(site::CFG, &[0u32, 20]),
+            ..KCfg::default()
+        }
+    });
+    let size = tape::pick(site::GEOM, &[2u16, 1, 4, 8]);
+    let ring = alloc::a10(|| a10::Ring::config().with_submission_queue_size(4).build());
+    let Ok(mut ring) = ring else {
+        report::harness_error("ring build failed".to_string());
+        return;
+    };
+    let sqh = alloc::a10(|| ring.sq());
+    let mut w = World {
+        ring: None,
+        sq: sqh,
+        fds: Vec::new(),
+        pools: Vec::new(),
+        direct_enabled: false,
+    };
+    let fd = w.new_fd();
+    match alloc::a10(|| a10::io::ReadBufPool::new(w.sq.clone(), size, 8)) {
+        Ok(p) => w.pools.push(p),
+        Err(e) => {
+            report::harness_error(format!("pool: {e}"));
+            return;
+        }
+    }
+    let total = 66_000 + tape::choose(site::GEOM, 3000);
+    let mut held: Vec<a10::io::ReadBuf> = Vec::new();
+    let wk = std::task::Waker::noop();
+    for i in 0..total {
+        let made = ops::make(&mut w, Kind::ReadPool, Some(fd), Some(0), i as u8);
+        let mut t: Box<dyn DynTask> = made.task;
+        let mut cx = Context::from_waker(wk);
+        let mut produced = Vec::new();
+        let old = kernel::set_cur(i, kernel::During::Poll);
+        let mut r = t.poll(&mut cx, &mut produced);
+        for _ in 0..4 {
+            if r.is_ready() {
+                break;
+            }
+            let _ = alloc::a10(|| ring.poll(Some(std::time::Duration::ZERO)));
+            kernel::with(|k| {
+                for kid in k.completable(0) {
+                    k.complete_kid(0, kid, true);
+                }
+            });
+            let _ = alloc::a10(|| ring.poll(Some(std::time::Duration::ZERO)));
+            r = t.poll(&mut cx, &mut produced);
+        }
+        kernel::set_cur(old.0, old.1);
+        if !matches!(r, Poll::Ready(Some(Ok(_)))) && !matches!(r, Poll::Ready(Some(Err(libc::ENOBUFS)))) {
+            report::violation("pool.lost-buffer", format!("pool read #{i} ended with {r:?}"));
+        }
+        drop(t);
+        for p in produced {
+            if let Produced::ReadBuf(b) = p {
+                held.push(b);
+            }
+        }
+        // Keep 0..size-1 buffers around, release the rest.
+        while held.len() > tape::choose(site::TARGET, u32::from(size)) as usize {
+            let j = tape::choose(site::TARGET, held.len() as u32) as usize;
+            let b = held.swap_remove(j);
+            alloc::a10(|| drop(b));
+        }
+        kernel::with(|k| k.observe_pbufs(0));
+        for v in alloc::take_violations() {
+            report::violation(v.class, v.detail);
+        }
+        if report::has_violation() {
+            break;
+        }
+        // The records are not needed; keep memory bounded.
+        if i % 1024 == 0 {
+            kernel::with(|k| {
+                for r in &mut k.records {
+                    r.wrote.clear();
+                }
+            });
+        }
+    }
+    alloc::a10(|| drop(held));
+    kernel::with(|k| k.observe_pbufs(0));
+    let (lost, win): (usize, usize) = kernel::with(|k| {
+        let p = k.rings[0].pbufs.values().next();
+        (p.map_or(0, |p| p.handed_out.len()), p.map_or(0, |p| p.window().len()))
+    });
+    if (lost != 0 || win != size as usize) && !report::has_violation() {
+        report::violation(
+            "pool.lost-buffer",
+            format!("after {total} releases the kernel can use {win} of {size} buffers ({lost} still handed out)"),
+        );
+    }
+    stats::add(stats::C::total_steps, u64::from(total));
+    let World { sq, fds, pools, .. } = w;
+    alloc::a10(|| {
+        drop(fds);
+        drop(pools);
+        drop(sq);
+        drop(ring);
+    });
+    for v in alloc::take_violations() {
+        report::violation(v.class, v.detail);
+    }
+}
